@@ -22,6 +22,7 @@ LEVEL = 'exploration'
 RULE = ('every assignment of the 10-string alphabet to (taxon names, genome descriptions, query labels) x strict x 3 formats on a 7-item result set; one case = one '
         'export of one result set, compared item by item; non-trivial = the assignment contains at least one string that needs quoting / escaping / is non-ASCII')
 ASSUMPTIONS = [
+	'exporter objects are reused across the exports of a task (databases with equal primary keys but different texts) and, in a second pass, created afresh',
 	'one taxonomy shape and a 7-query batch; strings drawn from a 10-element alphabet',
 	'CSV read back with csv.reader over newline-preserving text (newline=""), as the csv module documents',
 ]
@@ -64,13 +65,25 @@ def cell(v):
 	return '' if v is None else str(v)
 
 
+_EXPORTERS = {}
+
+
+def exporter(kind):
+	"""One exporter instance per kind and task, REUSED for every export of the task: the databases of a task share their primary keys but differ
+	in names / descriptions, so anything an exporter remembers from an earlier export (a per-instance cache) shows as stale output."""
+	from gambit.results import CSVResultsExporter, JSONResultsExporter, ResultsArchiveWriter
+	if kind not in _EXPORTERS:
+		_EXPORTERS[kind] = {'csv': CSVResultsExporter, 'json': JSONResultsExporter, 'archive': ResultsArchiveWriter}[kind]()
+	return _EXPORTERS[kind]
+
+
 def check_results(sh, res, session, case, strings):
 	from gambit.results import CSVResultsExporter, JSONResultsExporter, ResultsArchiveWriter, ResultsArchiveReader
 	n = len(res.items)
 	needs_cr = any(has_bare_cr(s) for s in strings)
 	# ---- CSV
 	buf = io.StringIO(newline='')
-	CSVResultsExporter().export(buf, res)
+	exporter('csv').export(buf, res)
 	text = buf.getvalue()
 	sh.evals += 1
 	rows = list(csv.reader(io.StringIO(text, newline='')))
@@ -97,7 +110,7 @@ def check_results(sh, res, session, case, strings):
 				break
 	# ---- JSON
 	buf = io.StringIO()
-	JSONResultsExporter().export(buf, res)
+	exporter('json').export(buf, res)
 	sh.evals += 1
 	try:
 		js = json.loads(buf.getvalue())
@@ -133,7 +146,7 @@ def check_results(sh, res, session, case, strings):
 						break
 	# ---- archive
 	buf = io.StringIO()
-	ResultsArchiveWriter().export(buf, res)
+	exporter('archive').export(buf, res)
 	sh.evals += 1
 	try:
 		back = ResultsArchiveReader(session).read(io.StringIO(buf.getvalue()))
@@ -174,16 +187,18 @@ def _only_cr_damage(text, res):
 
 
 def t_exports(ti, half, tier):
+	_EXPORTERS.clear()
 	from gambit.db import ReferenceDatabase
 	from gambit.query import query, QueryParams, QueryInput
 	from gambit.seq import SequenceFile
 	sh = Shard()
-	s_tax = ALPHABET[ti]
 	with fixtures.workdir('c11') as d:
 		gis = range(len(ALPHABET))
 		for gi in gis:
 			if gi % 2 != half:
 				continue
+			# both text roles change from one database of the task to the next (all 100 pairs are covered over the tasks)
+			s_tax = ALPHABET[(ti + gi) % len(ALPHABET)]
 			s_gen = ALPHABET[gi]
 			variant = (ti + gi) % 2
 			db = build_db(os.path.join(d, f'db{gi}'), s_tax, s_gen, variant)
@@ -193,7 +208,7 @@ def t_exports(ti, half, tier):
 				inputs = [QueryInput(l, SequenceFile(f'/data/in put/{i}.fa', 'fasta', 'gzip' if i % 2 else None)) if i % 3 else QueryInput(l) for i, l in enumerate(labels)]
 				for strict in (False, True):
 					res = query(db, sigs, QueryParams(classify_strict=strict, report_closest=3), inputs=inputs)
-					case = dict(taxon_string=s_tax, genome_string=s_gen, label_string=s_lab, strict=strict)
+					case = dict(taxon_string=s_tax, genome_string=s_gen, label_string=s_lab, strict=strict, task=[ti, half])
 					before = sh.nviol
 					check_results(sh, res, db.session, case, (s_tax, s_gen, s_lab))
 					if sh.nviol == before:
@@ -202,7 +217,7 @@ def t_exports(ti, half, tier):
 						kinds = result_kinds(res)
 						for k in kinds:
 							sh.count('kind_' + k)
-						sh.outcome([ti, gi, li, strict])
+						sh.outcome([(ti + gi) % len(ALPHABET), gi, li, strict])
 			db.signatures.close()
 			db.session.close()
 	sh.sample(dict(taxon_string=s_tax, genome_string=s_gen, label_string=s_lab, strict=strict, kinds=sorted(result_kinds(res))))
@@ -263,9 +278,15 @@ def replay(case, kind=None):
 		labels = [s_lab if not s_lab else f'{s_lab}{i}' for i in range(len(QSEGS))]
 		inputs = [QueryInput(l, SequenceFile(f'/data/in put/{i}.fa', 'fasta', 'gzip' if i % 2 else None)) if i % 3 else QueryInput(l) for i, l in enumerate(labels)]
 		res = query(db, sigs, QueryParams(classify_strict=case['strict'], report_closest=3), inputs=inputs)
-		check_results(sh, res, db.session, {k: case[k] for k in ('taxon_string', 'genome_string', 'label_string', 'strict')}, (s_tax, s_gen, s_lab))
+		_EXPORTERS.clear()
+		check_results(sh, res, db.session, dict(case), (s_tax, s_gen, s_lab))
 		db.signatures.close()
 		db.session.close()
+	if not sh.violations and 'task' in case:
+		# the failure may depend on what the (reused) exporters saw before: replay the whole task history up to this case
+		vs = t_exports(case['task'][0], case['task'][1], 'quick').violations
+		return [v for v in vs if {k: v['case'].get(k) for k in ('taxon_string', 'genome_string', 'label_string', 'strict')} ==
+		        {k: case.get(k) for k in ('taxon_string', 'genome_string', 'label_string', 'strict')}][:1] or vs[:1]
 	return sh.violations
 
 
